@@ -118,9 +118,10 @@ def handleAkima (args : List String) : Verdict :=
       let affine := (List.range (n - 2)).all fun i => (nth ys (i + 1) - nth ys i) * (nth xs (i + 2) - nth xs (i + 1)) == (nth ys (i + 2) - nth ys (i + 1)) * (nth xs (i + 1) - nth xs i)
       let slope := (nth ys 1 - nth ys 0) / (nth xs 1 - nth xs 0)
       let lineOk := !affine || per == "1" || (pts.all fun (r, v, _) => close v (nth ys 0 + slope * (r - nth xs 0)) tol)
-      let perOk := per != "1" || close (nth ts 0) (nth ts 0) tol
+      -- periodic: the two ends are one point of the periodic function — equal slope there (the value is equal by the input's y(N-1) = y(0))
+      let perOk := per != "1" || close (nth ts 0) (nth ts (n - 1)) (tol * 100)
       pure ({ agree := agreeEval && agreeSlopes, propOk := knots && c1 && lineOk && perOk,
-              msg := s!"interpolates={knots} C1={c1} lineExact={lineOk}", tag := s!"akima:{if per == "1" then "periodic" else "natural"}:{if affine then "line" else "data"}" } : Verdict)).getD (bad "akima fields")
+              msg := s!"interpolates={knots} C1={c1} lineExact={lineOk} periodicEndSlopesEqual={perOk}", tag := s!"akima:{if per == "1" then "periodic" else "natural"}:{if affine then "line" else "data"}" } : Verdict)).getD (bad "akima fields")
   | _ => bad "akima arity"
 
 def handleSmooth (args : List String) : Verdict :=
